@@ -7,7 +7,7 @@ from vlib import zlit, blist, pairlist, optlit, listlit, blit
 
 PROP = 'C13'
 REQUIRES = ['Edges.Model']
-RULE = ('edges: every binary stream of length <= L (quick 6-7 - at length 7 every second chunking -, thorough 9) meeting the run-length precondition x debounce 1..3 x '
+RULE = ('edges: every binary stream of length <= L (quick 6-7 - at length 7 every third chunking -, thorough 9) meeting the run-length precondition x debounce 1..3 x '
         'both initial states x EVERY chunking (all compositions of the length, so every boundary 0..debounce samples before/after an '
         'edge and chunks of length 1), detect mode / input form (plain 1-D, plain (1,n), PipelineData (1,n), PipelineData 1-D) / dtype / '
         'first index rotating; low-high-low-high streams with runs debounce+1..debounce+2, debounce 1..5, with the chunk boundaries '
@@ -173,8 +173,8 @@ def cases(tier, rng):
                     if not clean(m, init, x):
                         continue
                     for ci, comp in enumerate(compositions(n)):
-                        if quick and n == 7 and (ci + sum(x) + init) % 2:
-                            continue                  # quick: every second chunking of the longest streams
+                        if quick and n == 7 and (ci + sum(x) + init) % 3:
+                            continue                  # quick: every third chunking of the longest streams
                         i += 1
                         yield _edge_case(i, m, init, x, comp)
     # --- boundary sweep around one edge of a low-high-low-high stream
@@ -197,7 +197,7 @@ def cases(tier, rng):
                 yield _edge_case(i, m, init, x, [1] * len(x))
     # --- streams that do NOT meet the precondition: model = code only (plus tiling / time checks)
     Lu = 8 if quick else 10
-    for _ in range(1200 if quick else 20000):
+    for _ in range(900 if quick else 20000):
         n = rng.randint(1, Lu)
         x = [rng.randint(0, 1) for _ in range(n)]
         comp = rng.choice(list(compositions(n))) if n <= 8 else _rand_comp(rng, n, False)
